@@ -74,13 +74,24 @@ def fn_ranges(text):
 
 
 def scan_trusted(text):
-    """every line that introduces an assumption, with its line number"""
+    """every line that introduces an assumption, with its line number.  `#[verifier::external_body]`
+    is itemised: the key is the attribute plus the header line of the item it is attached to, so every
+    unverified body has to be listed individually in <unit>.trusted."""
     hits = []
     m = mask(text)
-    for no, (raw, ml) in enumerate(zip(text.split('\n'), m.split('\n')), 1):
+    raw_lines = text.split('\n')
+    m_lines = m.split('\n')
+    for no, (raw, ml) in enumerate(zip(raw_lines, m_lines), 1):
         for p in TRUST_PATTERNS:
             if re.search(p, ml):
-                hits.append((no, raw.strip()))
+                key = raw.strip()
+                if re.search(r'external_body', ml) and ml.strip().startswith('#['):
+                    k = no  # 0-based index of next line
+                    while k < len(raw_lines) and (m_lines[k].strip() == '' or m_lines[k].strip().startswith('#[')):
+                        k += 1
+                    nxt = raw_lines[k].strip() if k < len(raw_lines) else ''
+                    key = 'external_body: ' + re.sub(r'\s+', ' ', nxt).rstrip('{').strip()
+                hits.append((no, key))
                 break
     return hits
 
